@@ -227,6 +227,7 @@ class C11(SeqProp):
         u.pids = ["ab", "a", "p", "pq"]
         u.formats = [None, u.ns, "f1", "f2", "", "c", "bc", "a b"]
         u.add_pid_mate("p")             # a pid filed next to "p" (same shard directories under metadata/ and refs/pids/)
+        u.twins = [(("ab", "c"), ("a", "bc"))]   # pid + format coincide
         return u
 
     def owned(self, call, s, ctx):
